@@ -201,6 +201,7 @@ SolReadResult read_sol(const std::string& path, const SolReadConfig& cfg) {
       std::vector<double> lb((size_t)n, 0.0), ub((size_t)n, 10.0), c((size_t)n, 1.0), rlb((size_t)m, -5.0), rub((size_t)m, 50.0), aval;
       std::vector<int> ty((size_t)n), aidx; std::vector<size_t> astart;
       for (int j = 0; j < n; ++j) ty[(size_t)j] = (j % 2 == 0);
+      if ((int)cfg.easy_types.size() == n) for (int j = 0; j < n; ++j) { int t = cfg.easy_types[(size_t)j]; ty[(size_t)j] = t != 0; if (t == 1) ub[(size_t)j] = 1.0; }
       for (int i = 0; i < m; ++i) { astart.push_back(aidx.size()); aidx.push_back(i % n); aval.push_back(2.0 + i); }
       std::string sol_bytes; sim::read_file(path, sol_bytes);          // LoadModel rewrites the stub's files: keep the .sol under test
       mp::NLModel mdl("c14");
@@ -223,6 +224,11 @@ SolReadResult read_sol(const std::string& path, const SolReadConfig& cfg) {
           if ((int)sol.y_.size() > m) h.fail("EASY_SIZE", "y", "NLSolver::ReadSolution returned " + std::to_string(sol.y_.size()) + " dual values for " + std::to_string(m) + " rows");
           VecRec vx; vx.what = 'x'; vx.offered = (int)sol.x_.size(); vx.vals = sol.x_; vx.st.assign(sol.x_.size(), 0); vx.mode = "easy"; r.vecs.push_back(vx);
           VecRec vy; vy.what = 'y'; vy.offered = (int)sol.y_.size(); vy.vals = sol.y_; vy.st.assign(sol.y_.size(), 0); vy.mode = "easy"; r.vecs.push_back(vy);
+          for (const auto& sf : sol.suffixes_) r.easy_sufs.push_back({sf.name_, sf.table_, sf.kind_, sf.values_});
+          // the permutation the writer used, asked from the model itself (a second stub: the one under test stays as it is)
+          mp::NLModel::PreprocessData pd;
+          std::string werr = mdl.WriteNL(path.substr(0, path.size() - 4) + "_perm", NLW2_MakeNLOptionsBasic_C_Default(), utils, pd);
+          if (werr.empty()) r.easy_vperm = pd.vperm_;
         }
       }
     } else if (cfg.c_party) {
